@@ -252,6 +252,7 @@ def configs(tier, seed):
                          kaldi=kaldi, NMAX=(3 if tier == 'quick' else 4) * L))
     cfgs.append(dict(kind='flow', name='flow'))
     cfgs.append(dict(kind='wrappers', name='wrappers'))
+    cfgs.append(dict(kind='params', name='from_stft_frame_computer parameter transfer'))
     return cfgs
 
 
@@ -521,8 +522,73 @@ def run_wrappers(cfg):
     return dict(obligations=ob, discharged=ob - len(viol), violations=viol, samples=[{'config': 'wrappers', 'log': [str(x)[:80] for x in log]}], twin=True)
 
 
+def run_params(cfg):
+    """from_stft_frame_computer: every parameter of the functional port must come from the corresponding field of the
+    NumPy computer.  A stub computer exposes the private fields AND the public properties consistently; the bank's
+    is_real / is_analytic / is_zero_phase are varied independently (solver-forked booleans), so a parameter derived
+    from the wrong property shows up.  The real classmethod and the real module constructor run unchanged."""
+    import numpy as np
+    ns = loader.load_unit('torch', name='pydrobert.speech.torch')
+    cls = ns['PyTorchShortTimeFourierTransformFrameComputer']
+    viol = []
+    ob = dis = 0
+
+    def body():
+        flags = {k: decide(z3.Bool(k)) for k in ('use_log', 'use_power', 'include_energy', 'kaldi_shift', 'is_real', 'is_analytic', 'is_zero_phase', 'centered')}
+
+        class Bank:
+            is_real = flags['is_real']
+            is_analytic = flags['is_analytic']
+            is_zero_phase = flags['is_zero_phase']
+            num_filts = 2
+            sampling_rate = 1000
+
+        class Comp:
+            _filt_start_idxs = [1, 3]
+            _truncated_filts = [np.array([0.5, 0.25]), np.array([1.0, 0.5, 0.125])]
+            frame_length = _frame_length = 6
+            frame_shift = _frame_shift = 2
+            frame_style = _frame_style = 'centered' if flags['centered'] else 'causal'
+            _window = np.arange(1., 7.)
+            _dft_size = 8
+            _log = flags['use_log']
+            _power = flags['use_power']
+            _include_energy = includes_energy = flags['include_energy']
+            _kaldi_shift = kaldi_shift = flags['kaldi_shift']
+            _real = flags['is_real']
+            bank = _bank = Bank()
+            num_coeffs = 2 + int(flags['include_energy'])
+            sampling_rate = 1000
+            started = False
+        try:
+            m = cls.from_stft_frame_computer(Comp())
+        except Exception as e:
+            symex.guard(e)
+            return ('exception', '%s: %s' % (type(e).__name__, e), flags)
+        got = dict(use_log=m.use_log, use_power=m.use_power, include_energy=m.include_energy, kaldi_shift=m.kaldi_shift, is_real=m.is_real,
+                   centered=m.centered)
+        bad = [k for k in got if bool(got[k]) != flags[k]]
+        if m.frame_length != 6 or m.frame_shift != 2 or m.dft_size != 8 or tuple(m.offsets) != (1, 3):
+            bad.append('geometry')
+        if [list(map(float, f.detach().real.numpy())) for f in m.filters] != [[0.5, 0.25], [1.0, 0.5, 0.125]]:
+            bad.append('filters')
+        if list(map(float, m.window.detach().numpy())) != [1., 2., 3., 4., 5., 6.]:
+            bad.append('window')
+        return ('ok' if not bad else 'mismatch', bad, flags)
+
+    for ctx, res in explore(body):
+        if res is None:
+            continue
+        ob += 1
+        if res[0] == 'ok':
+            dis += 1
+        else:
+            viol.append(dict(kind='params', what='%s %s' % (res[0], res[1]), flags=res[2], **{'class': 'params/%s' % str(res[1])[:40]}))
+    return dict(obligations=ob, discharged=dis, violations=viol, samples=[{'config': 'params', 'combinations': ob}], twin=dis > 0)
+
+
 def run_config(cfg):
-    return {'walk': run_walk, 'frames': run_frames, 'flow': run_flow, 'wrappers': run_wrappers}[cfg['kind']](cfg)
+    return {'walk': run_walk, 'frames': run_frames, 'flow': run_flow, 'wrappers': run_wrappers, 'params': run_params}[cfg['kind']](cfg)
 
 
 # ------------------------------------------------------------------ replay on real torch / numpy
@@ -536,6 +602,24 @@ def replay(w):
     k = w['kind']
     if k == 'wrappers':
         return {'reproduced': True, 'detail': w['what']}
+    if k == 'params':
+        # a complex bank that is not analytic (support reaches below 0 Hz): Gabor at low_hz = 20
+        from pydrobert.speech.filters import GaborFilterBank, TriangularOverlappingFilterBank
+        worst = (0.0, None)
+        for bank in (GaborFilterBank('mel', num_filts=4, sampling_rate=8000, low_hz=20), TriangularOverlappingFilterBank('mel', num_filts=4, sampling_rate=8000, analytic=True),
+                     TriangularOverlappingFilterBank('mel', num_filts=4, sampling_rate=8000)):
+            for fl in ({'use_log': True, 'use_power': False}, {'use_log': False, 'use_power': True}):
+                for ie, ks, style in ((True, True, 'centered'), (False, False, 'causal')):
+                    c = STFTFrameComputer(bank, frame_length_ms=8, frame_shift_ms=3, frame_style=style, include_energy=ie, kaldi_shift=ks, window_function='hamming', **fl)
+                    t = PyTorchSTFTFrameComputer.from_stft_frame_computer(c, filter_type=torch.cdouble, window_type=torch.double)
+                    xs = rng.randn(300)
+                    with torch.no_grad():
+                        a = t(torch.tensor(xs)).numpy()
+                    b = c.compute_full(xs)
+                    d = float(np.abs(a - b).max()) if a.shape == b.shape else float('inf')
+                    if d > worst[0]:
+                        worst = (d, '%s %s energy=%s kaldi=%s %s' % (type(bank).__name__, fl, ie, ks, style))
+        return {'reproduced': worst[0] > 1e-6, 'detail': 'max |torch module - numpy computer| = %.3g (%s)' % worst}
     try:
         if k == 'walk':
             D, real, start, tl = w['D'], w['real'], w['start'], w['tl']
